@@ -664,7 +664,7 @@ def cases(tier, seed):
                        "tgt": {"T": [_enc_comp(c) for c in t]}, "threshold": None, "bsl": None, "balance": False,
                        "method": "tasks", "cfg": None, "dtype": "int64", "seed": 3, "threads": False, "api": "method",
                        "flav": "exhaustive"}
-    n_nc, n_rc, n_wl = (5000, 3200, 700) if tier == "quick" else (80000, 50000, 10000)
+    n_nc, n_rc, n_wl = (6000, 5000, 900) if tier == "quick" else (80000, 50000, 10000)
     total = n_nc + n_rc + n_wl
     # interleave the three parts so that a truncated run still saw all of them
     left = {"nc": n_nc, "rc": n_rc, "wl": n_wl}
@@ -836,7 +836,7 @@ def _run_rc(case, ctx):
             if w.failed():
                 ctx.count("rechunk_stopped_by_normalize_chunks")
                 return
-            ctx.exception(e, prefix="rechunk:" + feat, method=method, config_method=cfg, threshold=thr, block_size_limit=bsl)
+            ctx.exception(e, prefix="rechunk:" + (feat.replace("&auto", "").replace("auto", "plain")), method=method, config_method=cfg, threshold=thr, block_size_limit=bsl)
             return
     if method is None and cfg is None:
         ctx.count("default_method_fell_back_to_tasks")
